@@ -1,19 +1,19 @@
-\* topics (C02): set-up = 2 RUNNING modules in a started loop; literal and regular-expression subscriptions, publish with and without auto-free, unsubscribe / pause / stop with messages in flight
+\* as life, with module names that share a bucket of the context table (C01)
 CONSTANTS
   Mods = {"A", "B"}
   Order <- Order2
-  Collide = FALSE
-  Hooks <- Hooks_none2
+  Collide = TRUE
+  Hooks <- Hooks_life
   Flags <- Flags_none
-  CtxPersist = TRUE
+  CtxPersist = FALSE
   Topics = {"t1"}
-  Pats = {"t1", "t."}
+  Pats = {"t1"}
   MaxPay = 1
   Cap = 2
   MaxNest = 1
-  Ops = {"CtxDeregister", "DropRef", "Dispatch", "CtxQuit", "ModPause", "ModResume", "ModStop", "ModDeregister", "Publish", "Subscribe", "Unsubscribe"}
-  CbOps = {"ModPause", "Unsubscribe", "Publish"}
-  EvalVals = {TRUE}
+  Ops = {"CtxRegister", "CtxDeregister", "Dispatch", "DispatchIntr", "CtxQuit", "ModRegister", "ModDeregister", "ModStart", "ModPause", "ModResume", "ModStop", "DropRef", "Tell"}
+  CbOps = {"ModStart", "ModPause", "ModStop", "ModDeregister", "CtxQuit"}
+  EvalVals = {TRUE, FALSE}
   Prios = {"N"}
   BatchSizes = {}
   UnstashNs = {}
@@ -35,7 +35,7 @@ CONSTANTS
   ForeignOps = {}
   MaxRefs = 1
   MaxHeld = 0
-  Setup = "loop2"
+  Setup = ""
 INIT Init
 NEXT Next
 CHECK_DEADLOCK FALSE
